@@ -181,5 +181,5 @@ def rdm_body(ctx, case):
 SUBCHECKS = [
     SubCheck("overlap_vs_fock", body=overlap_body, strategy=overlap_strategy, examples={"quick": 110, "thorough": 1500}, shards={"quick": 12, "thorough": 12}),
     SubCheck("batched_overlap", body=batch_body, strategy=batch_strategy, examples={"quick": 30, "thorough": 300}, shards={"quick": 9, "thorough": 9}),
-    SubCheck("rdm1_vs_fock", body=rdm_body, strategy=rdm_strategy, examples={"quick": 60, "thorough": 800}, shards={"quick": 1, "thorough": 4}),
+    SubCheck("rdm1_vs_fock", body=rdm_body, strategy=rdm_strategy, examples={"quick": 60, "thorough": 800}, shards={"quick": 4, "thorough": 4}),
 ]
